@@ -110,7 +110,29 @@ func finish(o *Options, ov map[string]string, results []*HarnessStats, dirOf map
 		if o.NoNative {
 			continue
 		}
-		res, out, err := nativeRun(o, ov, dir, rdir, false)
+		var res map[string]string
+		var out string
+		var err error
+		if o.NativeRace {
+			// one process per replay under the race detector; a reported race becomes the result "race"
+			res = map[string]string{}
+			for _, r := range list {
+				one := filepath.Join(rdir, "one_"+r.file)
+				os.MkdirAll(one, 0o755)
+				b, _ := os.ReadFile(filepath.Join(rdir, r.file))
+				os.WriteFile(filepath.Join(one, r.file), b, 0o644)
+				r1, o1, e1 := nativeRun(o, ov, dir, one, true)
+				if strings.Contains(o1, "WARNING: DATA RACE") {
+					res[r.file] = "race"
+				} else if e1 != nil {
+					err, out = e1, o1
+				} else {
+					res[r.file] = r1[r.file]
+				}
+			}
+		} else {
+			res, out, err = nativeRun(o, ov, dir, rdir, false)
+		}
 		if err != nil {
 			fmt.Println("NATIVE RUN FAILED:", err)
 			fmt.Println(tail(out, 40))
@@ -133,6 +155,9 @@ func finish(o *Options, ov map[string]string, results []*HarnessStats, dirOf map
 			ok := got == want
 			if r.v.Kind == "panic" {
 				ok = strings.HasPrefix(got, "panic:")
+			}
+			if r.v.ID == "no-data-race" {
+				ok = got == "race"
 			}
 			if ok {
 				confirmed++
